@@ -87,6 +87,42 @@ func sortAdvSection(r *tx.Rng, w *tx.W, size int, opt map[string]string) {
 			verifhooks.Sort(ascending(n), []verifhooks.Comparable{a})
 		}()
 		copy(vals, a.val)
+		// the items the adversary never had to decide (all still "gas", i.e. equal and largest) are what the fallback
+		// sort of the exhausted range works on: give them distinct values as well — ascending, descending, shuffled —
+		// so that the heap construction and the pops have something to get wrong
+		for variant := 0; variant < 3; variant++ {
+			v := append([]int(nil), a.val...)
+			var gasAt []int
+			for i, x := range v {
+				if x == a.gas {
+					gasAt = append(gasAt, i)
+				}
+			}
+			if len(gasAt) < 2 {
+				break
+			}
+			order := make([]int, len(gasAt))
+			for i := range order {
+				switch variant {
+				case 0:
+					order[i] = i
+				case 1:
+					order[i] = len(gasAt) - 1 - i
+				default:
+					order[i] = i
+				}
+			}
+			if variant == 2 {
+				for i := len(order) - 1; i > 0; i-- {
+					j := r.Intn(i + 1)
+					order[i], order[j] = order[j], order[i]
+				}
+			}
+			for k, i := range gasAt {
+				v[i] = a.gas + order[k]
+			}
+			emitSortCase(w, "killer-decided", v)
+		}
 	case "random":
 		for i := range vals {
 			vals[i] = r.Intn(4 * n)
